@@ -4,9 +4,9 @@ The mirror is deliberately tiny: the substance table and the four measures.  It 
 replayed state against values computed by TLC (the `vol` field of every well)."""
 from fractions import Fraction as F
 
-KIND = {"W": "liquid", "D": "liquid", "N": "solid", "M": "solid", "E": "enzyme"}
-VOLPER = {"W": F(1), "D": F(2), "N": F(3), "M": F(5), "E": F(1)}
-MASSPER = {"W": F(1), "D": F(4), "N": F(3), "M": F(5), "E": F(1, 10)}
+KIND = {"W": "liquid", "D": "liquid", "N": "solid", "M": "solid", "E": "enzyme", "F": "enzyme"}
+VOLPER = {"W": F(1), "D": F(2), "N": F(3), "M": F(5), "E": F(1), "F": F(1)}
+MASSPER = {"W": F(1), "D": F(4), "N": F(3), "M": F(5), "E": F(1, 10), "F": F(1, 4)}
 QUNITS = ("L", "g", "mol", "U")
 INF = "inf"
 
